@@ -118,6 +118,15 @@ def cheap_digest(lTokens):
     return hash((tuple(map(id, lTokens)), tuple([t.value for t in lTokens]), tuple(map(type, lTokens))))
 
 
+def map_digest(oFile):
+    """the role -> positions index is part of the model an analysis must leave alone (C06) and must mirror the list (C18)"""
+    try:
+        d = oFile.oTokenMap.dMap
+        return hash(tuple((b, tuple((s, tuple(l)) for s, l in sorted(sub.items()))) for b, sub in sorted(d.items())))
+    except Exception:
+        return 0
+
+
 def _norm(v):
     if isinstance(v, list):
         return tuple(_norm(x) for x in v)
@@ -250,6 +259,7 @@ def wrap_rule(T, oRule):
         else:
             d0 = cheap_digest(lAll0)
         D0 = deep_digest(oFile.lAllObjects) if T.deep else None
+        m0 = map_digest(oFile)
         nv0 = len(oRule.violations)
         try:
             ret = orig_analyze(oFile, *a, **k)
@@ -258,10 +268,15 @@ def wrap_rule(T, oRule):
             raise
         d1 = cheap_digest(oFile.lAllObjects)
         pure = d1 == d0
+        map_same = map_digest(oFile) == m0
+        if not map_same:
+            pure = False
         T.last_digest = (oFile.lAllObjects, len(oFile.lAllObjects), d1) if T.cur is None or T.cur["rule"] is not oRule else None
         what = None
+        if not map_same:
+            what = "the analysis changed the token index (oTokenMap)"
         if T.deep:
-            what = deep_diff(D0, deep_digest(oFile.lAllObjects))
+            what = deep_diff(D0, deep_digest(oFile.lAllObjects)) or what
             pure = pure and what is None
         if not pure:
             T.dirty = True
